@@ -59,12 +59,17 @@ INJECT = {
     'line': {'t': 'pl', 'x0': 1.0, 'y0': 2.0, 'x1': 3.0, 'y1': 4.0},
     'surrogate': {'t': 'ptext', 'x': 1.0, 'y': 2.0, 'text': 'a\udcffb'},
     'surrogate_label': {'t': 'pc', 'x': 1.0, 'y': 2.0, 'r': 3.0, 'label': 'lab\udcff'},
+    # DS9: `tag` must be a list; formatting the metadata of this element raises TypeError
+    'badtag': {'t': 'pc', 'x': 1.0, 'y': 2.0, 'r': 3.0, 'tag': 5},
+    # FITS: a `component` that cannot be combined with the auto-numbered components of the other rows;
+    # raises only next to at least one other kept row ('ctx': kind probed beside a neutral companion)
+    'badcomp': {'t': 'pc', 'x': 1.0, 'y': 2.0, 'r': 3.0, 'component': 'a', 'ctx': True},
     'sky_surrogate': {'t': 'stext', 'frame': 'fk5', 'lon': 1.0, 'lat': 2.0, 'text': 'a\udcffb'},
 }
 INJECT_FOR = {
-    'ds9': ['compound', 'oddframe', 'surrogate', 'surrogate_label'],
+    'ds9': ['compound', 'oddframe', 'badtag', 'surrogate', 'surrogate_label'],
     'crtf': ['compound', 'pixel', 'sky_surrogate'],
-    'fits': ['compound', 'sky', 'line'],
+    'fits': ['compound', 'sky', 'line', 'badcomp'],
 }
 # invalid serialiser / writer options
 BAD_OPTS = {
@@ -80,8 +85,14 @@ def build(spec):
     from astropy.coordinates import SkyCoord
     import regions as R
     t = spec['t']
-    meta = R.RegionMeta({'text': spec['label']}) if 'label' in spec else None
-    kw = {'meta': meta} if meta is not None else {}
+    md = {}
+    if 'label' in spec:
+        md['text'] = spec['label']
+    if 'tag' in spec:
+        md['tag'] = spec['tag']
+    if 'component' in spec:
+        md['component'] = spec['component']
+    kw = {'meta': R.RegionMeta(md)} if md else {}
 
     def sky(lon, lat):
         fr = spec['frame']
@@ -222,8 +233,9 @@ class Check(PropertyCheck):
             'state {absent, existing file, existing EMPTY file, symlink to a file, symlink to an empty file, dangling symlink, '
             'two-link chain, self-referential symlink} '
             'x overwrite {False, True} (full product) x region lists of length 0-4 with an unserialisable element injected '
-            'at each position (compound region; sky region / line for FITS; pixel region for CRTF; unsupported frame for DS9; '
-            'a label that cannot be encoded) or an invalid option (precision/coordsys/radunit/fmt/header, unknown keyword) '
+            'at each position (genuinely failing: a non-list `tag` for DS9, compound / pixel region for CRTF, a `component` that clashes '
+            'with the auto-numbered rows for FITS [needs one other row], text that cannot be encoded; skipped with a warning: compound / '
+            'unsupported frame for DS9, sky / line / compound for FITS) or an invalid option (precision/coordsys/radunit/fmt/header, unknown keyword) '
             'x Region.write vs Regions.write x every extension registered for auto-identification (lower and upper case), '
             'format given / inferred / unknown, names without a registered extension, names carrying another format\'s extension. '
             'After a successful write: read with the format given, inferred from the extension, inferred from the content of a '
@@ -289,6 +301,8 @@ class Check(PropertyCheck):
 
         def mk(fmt, state, ow, inj='none', opts=None, n=None, pos=None, api=None, name=None, fmt_arg='given', npos=1):
             n = rng.randint(0, 3) if n is None else n
+            if INJECT.get(inj, {}).get('ctx') and n == 0:
+                n, pos = 1, (None if pos is None else min(pos, 1))
             items = base_list(fmt, n)
             positions = []
             if inj != 'none' and inj != 'opts':
@@ -372,13 +386,14 @@ class Check(PropertyCheck):
         RR, Region, Regions = _registry()
         with warnings.catch_warnings():
             warnings.simplefilter('ignore')
+            comp = [build(OK_POOL[fmt][0])] if spec.get('ctx') else []
             try:
-                out = Regions([build(spec)]).serialize(format=fmt, **ser_opts)
+                out = Regions(comp + [build(spec)]).serialize(format=fmt, **ser_opts)
             except Exception as e:
                 res = ('bad', exc_name(e), True)
             else:
                 if fmt == 'fits':
-                    res = ('skip' if len(out) == 0 else 'ok', '', True)
+                    res = ('skip' if len(out) == len(comp) else 'ok', '', True)
                 else:
                     try:
                         empty = Regions([]).serialize(format=fmt, **ser_opts)
